@@ -24,6 +24,15 @@ CLAIMS = {
          "Coq theorems over a model of mypy/server/update.py: find_targets_recursive returns exactly the targets reachable through the dependency map (any map); propagate_changes_using_dependencies reaches a consistent state; update of a changed/added/deleted module equals a full check and re-establishes the invariant, lifted by induction over ALL finite edit histories (stale_errors_removed, no_error_missed); the file-system watcher reports exactly the changed paths under the mtime discipline. deps.py / astdiff completeness are explicit contracts, monitored on the implementation (a target whose fresh result changed must have been reprocessed). Tied by replaying every real propagate call (observed deps map and answers) on the Coq loop, and by comparing the in-process daemon with a fresh non-incremental build after every step of generated and test-suite edit histories (one scenario per dependency kind of deps.py)",
          "Coq 8.16.1, no axioms; deps_complete / diff_complete / check_module_consistent are contracts (monitored, not proved); theorem conditional on the update returning (MAX_ITER not hit, no blocker); 29 known divergences of the unchanged daemon from a fresh run are listed in known_findings.json (status mismatches, lost used-before-def/has-type, note formatting, order within file, three daemon crashes, one missed propagation)",
          "Coq invariant/worklist proofs + vm_compute trace validation of real update.py runs + differential oracle with shrinking", "6/C03"),
+
+ "C08": ("proof",
+         "Coq model of mypy's is_subtype / is_proper_subtype / is_same_type / join / meet / make_simplified_union / subtype caches over arbitrary class tables (Any, Never, None, generic instances with variance and promotions, literals, unions, tuples). Proved at full strength: reflexivity, proper=>subtype, answers independent of fuel and of any sound cache. Proved on the nominal fragments F1/F1up under wf_ct and chains_ok (both evaluated on the real class table every run): transitivity, join upper bounds, meet lower bounds, meet commutativity, simplified-union equivalence under permutation, fuel sufficiency. REFUTED with witnesses replayed on real mypy each run: transitivity (single-member enum literal), meet lower bound (contravariant generic + promotion), join commutativity (base order). Tied by exhaustive pair correspondence of every operation on a universe built by a real mypy build (0 mismatches), and a law search on real mypy over exotic kinds",
+         "Coq 8.16.1, no axioms; hand model tied by correspondence only; laws on generic instances with variance, tuples and bool/enum contraction not proved; cache_transparent state machine proved only for union-free keys; 46 known law/kind violation classes of the unchanged tree listed in known_findings.json (keys = law + multiset of type kinds)",
+         "hand model + extracted-OCaml exhaustive correspondence + order-theoretic proof on a fragment + law search", "6/C08"),
+ "C18": ("proof",
+         "Coq theorems over a model of find_sources.py / modulefinder.py (user paths) / load_graph duplicate checks, for all directory trees and depths: crawl_find_inverse (the module name assigned to a file resolves, on the search path mypy derives, to that file, its sibling stub, the package beside a module file, or in namespace mode the directory beside it), duplicate detection exact, per-file listing order-independent, directory walk = per-file crawl on trees without a module beside a same-named directory (dir_eq_files_no_shadow); the strict forms are refuted by machine-checked witnesses. Tied by exhaustive small-scope correspondence: every enumerated tree x option combination x cwd against real create_source_list / find_module / find_modules_recursive (0 mismatches over ~700k answers per quick run) and differential command lines DIR vs FILES vs -p",
+         "Coq 8.16.1, no axioms; hand model tied by correspondence only; user paths only (no site-packages, typeshed, exclude, case-insensitive fs); dir_eq_package stated and model-checked on bounded trees, not proved; 2 known findings (module beside same-named directory)",
+         "extracted Coq model vs in-process mypy on enumerated directory trees + induction proofs + differential command-line runs", "6/C18"),
 }
 NOT_YET = "model and theorems for this property are not built yet in this round (see DESIGN.md section 6 for the plan); not claimed until the Coq development and its tie exist"
 
